@@ -290,9 +290,13 @@ Definition stop_checks_rb (B : list (Z * Z)) (k : Z) (t : stour) (facts : list f
          ++ (if ss_load st =? nth_z loads i 0 then [] else [RLoad k s])
          ++ (if ss_dist st =? nth_z cum i 0 then [] else [RDistance k s])
        end) (to_stops t)).
-Definition replay_stat_rb (P : pproblem) (B : list (Z * Z)) (vt : pvtype) (acts : list act) : sstat :=
+(* fin: the moment the tour is over.  When the reported end of the last activity and the replayed one have nothing but break time
+   between them (a break that begins exactly when the last activity is over: the documents count it into the tour), the reported
+   one is taken; without breaks that is the replayed end *)
+Definition tour_over (B : list (Z * Z)) (reported replayed : Z) : Z := if same_time B reported replayed then reported else replayed.
+Definition replay_stat_rb (P : pproblem) (B : list (Z * Z)) (vt : pvtype) (acts : list act) (fin : Z) : sstat :=
   let dist := tour_legs (pdist P) acts in
-  let dur := replay_duration_rb (pdur P) B acts in
+  let dur := match acts with [] => 0 | s :: _ => fin - a_dep s end in
   mkSStat (vt_fixed vt + dist * vt_cd vt + dur * vt_ct vt) dist dur
           (tour_legs (pdur P) acts) (replay_serving acts - replay_break acts) (replay_waiting_rb (pdur P) B acts)
           (replay_break acts + iv_total B).
@@ -307,7 +311,8 @@ Definition replay_tour_rb (P : pproblem) (B : list (Z * Z)) (bends : list (optio
     act_checks_rb B k facts rep
     ++ stop_checks_rb B k t facts rep (replay_loads_x has_end acts) (replay_cumdist (pdist P) acts) bends
     ++ tag_checks k (combine (map (shrink B) (map fst (rb_jobs r))) (map snd (rb_jobs r)))
-    ++ stat_checks k (replay_stat_rb P B (rb_vt r) acts) (to_stat t)
+    ++ stat_checks k (replay_stat_rb P B (rb_vt r) acts
+                                     (tour_over B (fa_end (last facts (rb_dep r))) (snd (last rep (0, 0))))) (to_stat t)
   end.
 
 (* ---- capacity in the further dimensions and the task order, on the tour rebuilt around the breaks *)
